@@ -56,23 +56,36 @@ class IndepA(IndepBase):
     message = 'independent error'
 
 
+class Replaced2005(exc.JsonRpcError):
+    """registered for code 2005 first ..."""
+    code = 2005
+    message = 'first class registered for 2005'
+
+
+class Custom2005(exc.JsonRpcError):
+    """... and replaced by this later registration for the same code (an application overriding a class, e.g. its own ServerError
+    subclass): a code has one registered class, the one registered last"""
+    code = 2005
+    message = 'custom error 2005'
+
+
 # the harness' own model of the global registry (not read from pjrpc)
 GLOBAL: Dict[int, Type[exc.JsonRpcError]] = {
     -32700: exc.ParseError, -32600: exc.InvalidRequestError, -32601: exc.MethodNotFoundError,
     -32602: exc.InvalidParamsError, -32603: exc.InternalError, -32000: exc.ServerError,
-    2001: Custom2001, 2002: Custom2002, 2003: Custom2003, 2004: Custom2004, -32050: SrvRange, 3001: IndepA, 0: ZeroCode,
+    2001: Custom2001, 2002: Custom2002, 2003: Custom2003, 2004: Custom2004, 2005: Custom2005, -32050: SrvRange, 3001: IndepA, 0: ZeroCode,
 }
 
 BY_NAME: Dict[str, Type[exc.JsonRpcError]] = {
     'JsonRpcError': exc.JsonRpcError, 'ParseError': exc.ParseError, 'InvalidRequestError': exc.InvalidRequestError,
     'MethodNotFoundError': exc.MethodNotFoundError, 'InvalidParamsError': exc.InvalidParamsError,
     'InternalError': exc.InternalError, 'ServerError': exc.ServerError, 'Custom2001': Custom2001, 'Custom2002': Custom2002,
-    'Custom2003': Custom2003, 'Custom2004': Custom2004, 'SrvRange': SrvRange, 'PlainBase': PlainBase, 'IndepBase': IndepBase,
+    'Custom2003': Custom2003, 'Custom2004': Custom2004, 'Custom2005': Custom2005, 'SrvRange': SrvRange, 'PlainBase': PlainBase, 'IndepBase': IndepBase,
     'IndepA': IndepA, 'ZeroCode': ZeroCode,
 }
 
 TYPED = ['ParseError', 'InvalidRequestError', 'MethodNotFoundError', 'InvalidParamsError', 'InternalError', 'ServerError',
-         'Custom2001', 'Custom2002', 'Custom2003', 'Custom2004', 'SrvRange', 'IndepA', 'ZeroCode']
+         'Custom2001', 'Custom2002', 'Custom2003', 'Custom2004', 'Custom2005', 'SrvRange', 'IndepA', 'ZeroCode']
 REGISTERED_CODES = sorted(GLOBAL)
 
 
